@@ -204,7 +204,7 @@ def reason(o):
 def run_pairs(ctx, found, model_ok):
     from props.C19 import V
     quick = ctx.tier == 'quick'
-    n = 64 if quick else 1600
+    n = 48 if quick else 1600
     seeds = [ctx.rng.randrange(2 ** 31) for _ in range(n)]
     pairs = directed_pairs() + [gen_pair(sd) for sd in seeds]
     with multiprocessing.Pool(min(16, vlib.NPROC)) as pool:
